@@ -53,4 +53,9 @@ class DownChunkingPlugin(Plugin):
                     f"Plugin {self.__class__.__name__} should yield (dict of) "
                     "strax.Chunk in compute method."
                 )
+            if isinstance(_result, dict):
+                for d in self.provides:
+                    self._check_chunk(_result[d], d)
+            else:
+                self._check_chunk(_result, self.provides[0])
             yield self.superrun_transformation(_result, superrun, subruns)
